@@ -20,6 +20,7 @@ struct RunResult
 {
     std::vector<Violation> violations;
     uint64_t hash = 0;       // event-log hash: plan, per-region teams + decisions, output digests, outcome
+    uint64_t outcome_hash = 0; // plan, output digests and findings only (no scheduling decisions, no step counts)
     uint64_t shape_hash = 0; // plan shape (kinds + arguments, without seeds)
     uint64_t sched_hash = 0; // all scheduling decisions of the main executions
     int ops = 0;
